@@ -343,6 +343,56 @@ def specVerdict (m : M) (op : String) (a r : Array UInt64) : Option Bool :=
 @[inline] def hexVal (c : UInt8) : UInt64 :=
   if c ≥ 48 && c ≤ 57 then (c - 48).toUInt64 else if c ≥ 97 && c ≤ 102 then (c - 87).toUInt64 else (c - 55).toUInt64
 
+-- ------------------------------------------------------------------ sweeps (binary32, unary)
+@[inline] def canon (r : UInt32) : UInt32 := if (r &&& 0x7FFFFFFF) > 0x7F800000 then 0x7FC00000 else r
+@[inline] def irDom (x : UInt32) : Bool := x == 0x80000000 || x < 0x4F000000
+@[inline] def urDom (x : UInt32) : Bool := x == 0x80000000 || x < 0x4F800000
+def OUTDOM : UInt32 := 0xDEADBEEF
+
+def sweepFn (op : String) : Option (UInt32 → UInt32) :=
+  let op : String := if op.startsWith "v" then (op.drop 1).copy else op     -- vector forms: the scalar function per component
+  match op with
+  | "floor" => some floorS
+  | "ceil" => some ceilS
+  | "trunc" => some truncS
+  | "round" => some roundS
+  | "roundEven" => some roundEven
+  | "fract" => some fract
+  | "abs" => some abs
+  | "sign" => some sign
+  | "isnan" => some fun x => (glmIsnan x).toUInt32
+  | "isinf" => some fun x => (glmIsinf x).toUInt32
+  | "iround" => some fun x => if irDom x then (iround x).toUInt32 else OUTDOM
+  | "uround" => some fun x => if urDom x then uround x else OUTDOM
+  | "wrapClamp" => some wrapClamp
+  | "repeat" => some wrapRepeat
+  | "mirrorClamp" => some mirrorClamp
+  | "mirrorRepeat" => some mirrorRepeat
+  | "fbti" => some fun x => (floatBitsToInt x).toUInt32
+  | "fbtu" => some floatBitsToUint
+  | "ibtf" => some fun x => intBitsToFloat x.toInt32
+  | "ubtf" => some uintBitsToFloat
+  | "modf_i" => some modfInt
+  | "modf_f" => some modfFrac
+  | _ => none
+
+/-- executable specification of the swept op on (input, result): range / definition clauses
+that are *not* the model itself.  Evaluated on the model's result; equal block hashes carry it
+over to glm. -/
+def sweepSpec (op : String) : UInt32 → UInt32 → Bool :=
+  let op : String := if op.startsWith "v" then (op.drop 1).copy else op
+  match op with
+  | "roundEven" => fun x r => same r (rintS x)
+  | "fract" | "repeat" | "mirrorClamp" | "mirrorRepeat" => fun x r => !isFinite x || (le fZero r && le r fOne)
+  | "wrapClamp" => fun x r => isNaN x || (le fZero r && le r fOne)
+  | "iround" => fun x r => !irDom x || (if expo x < 126 then r == 0 else idist x r.toUInt64 ≤ 0x800000)
+  | "uround" => fun x r => !urDom x || (if expo x < 126 then r == 0 else idist x r.toUInt64 ≤ 0x800000)
+  | "sign" => fun _ r => r == fZero || r == fOne || r == fNegOne
+  | "abs" => fun x r => mag r == mag x
+  | "fbti" | "fbtu" | "ibtf" | "ubtf" => fun x r => r == x
+  | _ => fun _ _ => true
+
+
 def libmMinMax (op : String) : Bool :=
   ["fmin2", "fmax2", "fmin3", "fmax3", "fmin4", "fmax4", "fclamp", "vfmin2", "vfmax2", "vfmin3", "vfmax3",
    "vfmin4", "vfmax4", "vfclamp"].contains op
@@ -401,6 +451,27 @@ partial def runLines (buf : ByteArray) : IO Stats := do
       seen := seen.insert h
       st := { st with nontrivial := st.nontrivial + 1 }
     let showLine := s!"{op} {Char.ofNat ty.toNat} {" ".intercalate (args.toList.map hex)} -> {" ".intercalate (res.toList.map hex)}"
+    -- lines of a sweep block (`C11 block …`): op name prefixed by "S:", one binary32 argument
+    if op.startsWith "S:" then
+      let sop : String := (op.drop 2).copy
+      match sweepFn sop with
+      | none => st := { st with unknown := st.unknown + 1 }
+      | some f =>
+        let x := args[0]!.toUInt32
+        let r := (res.getD 0 0).toUInt32
+        st := { st with results := st.results + 1, speccmp := st.speccmp + 1 }
+        if !(sweepSpec sop x r) then
+          st := { st with specfail := st.specfail + 1 }
+          if st.printed < 200 then
+            IO.println s!"SPECFAIL {showLine}"
+            st := { st with printed := st.printed + 1 }
+        let mr := if sweepExact sop then f x else canon (f x)
+        if mr != r then
+          st := { st with mismatches := st.mismatches + 1 }
+          if st.printed < 200 then
+            IO.println s!"MISMATCH {showLine} model {hex mr.toUInt64}"
+            st := { st with printed := st.printed + 1 }
+      continue
     match specVerdict m op args res with
     | some ok =>
       st := { st with speccmp := st.speccmp + 1 }
@@ -429,54 +500,11 @@ partial def runLines (buf : ByteArray) : IO Stats := do
           st := { st with printed := st.printed + 1 }
   return st
 
--- ------------------------------------------------------------------ sweeps (binary32, unary)
-@[inline] def canon (r : UInt32) : UInt32 := if (r &&& 0x7FFFFFFF) > 0x7F800000 then 0x7FC00000 else r
-@[inline] def irDom (x : UInt32) : Bool := x == 0x80000000 || x < 0x4F000000
-@[inline] def urDom (x : UInt32) : Bool := x == 0x80000000 || x < 0x4F800000
-def OUTDOM : UInt32 := 0xDEADBEEF
-
-def sweepFn (op : String) : Option (UInt32 → UInt32) :=
-  let op := if op.startsWith "v" then op.drop 1 else op     -- vector forms: the scalar function per component
-  match op with
-  | "floor" => some floorS
-  | "ceil" => some ceilS
-  | "trunc" => some truncS
-  | "round" => some roundS
-  | "roundEven" => some roundEven
-  | "fract" => some fract
-  | "abs" => some abs
-  | "sign" => some sign
-  | "isnan" => some fun x => (glmIsnan x).toUInt32
-  | "isinf" => some fun x => (glmIsinf x).toUInt32
-  | "iround" => some fun x => if irDom x then (iround x).toUInt32 else OUTDOM
-  | "uround" => some fun x => if urDom x then uround x else OUTDOM
-  | "wrapClamp" => some wrapClamp
-  | "repeat" => some wrapRepeat
-  | "mirrorClamp" => some mirrorClamp
-  | "mirrorRepeat" => some mirrorRepeat
-  | "fbti" => some fun x => (floatBitsToInt x).toUInt32
-  | "fbtu" => some floatBitsToUint
-  | "ibtf" => some fun x => intBitsToFloat x.toInt32
-  | "ubtf" => some uintBitsToFloat
-  | "modf_i" => some modfInt
-  | "modf_f" => some modfFrac
-  | _ => none
-
-/-- executable specification of the swept op on (input, result): range / definition clauses
-that are *not* the model itself.  Evaluated on the model's result; equal block hashes carry it
-over to glm. -/
-def sweepSpec (op : String) : UInt32 → UInt32 → Bool :=
-  let op := if op.startsWith "v" then op.drop 1 else op
-  match op with
-  | "roundEven" => fun x r => same r (rintS x)
-  | "fract" | "repeat" | "mirrorClamp" | "mirrorRepeat" => fun x r => !isFinite x || (le fZero r && le r fOne)
-  | "wrapClamp" => fun x r => isNaN x || (le fZero r && le r fOne)
-  | "iround" => fun x r => !irDom x || (if expo x < 126 then r == 0 else idist x r.toUInt64 ≤ 0x800000)
-  | "uround" => fun x r => !urDom x || (if expo x < 126 then r == 0 else idist x r.toUInt64 ≤ 0x800000)
-  | "sign" => fun _ r => r == fZero || r == fOne || r == fNegOne
-  | "abs" => fun x r => mag r == mag x
-  | "fbti" | "fbtu" | "ibtf" | "ubtf" => fun x r => r == x
-  | _ => fun _ _ => true
+-- ------------------------------------------------------------------ sweep loop
+/-- ops whose results are compared bit for bit (NaN payloads included); the others: NaN as a class -/
+def sweepExact (op : String) : Bool :=
+  let op : String := if op.startsWith "v" then (op.drop 1).copy else op
+  ["abs", "sign", "isnan", "isinf", "iround", "uround", "wrapClamp", "fbti", "fbtu", "ibtf", "ubtf"].contains op
 
 def low6 : Array UInt32 := #[0, 1, 0xFFF, 0x1000, 0x1001, 0x1FFF]
 @[inline] def sweepInput (thorough : Bool) (idx : UInt64) : UInt32 :=
@@ -485,6 +513,7 @@ def low6 : Array UInt32 := #[0, 1, 0xFFF, 0x1000, 0x1001, 0x1FFF]
 def runSweep (op : String) (thorough : Bool) (b0 b1 : UInt64) : IO UInt32 := do
   let some f := sweepFn op | do IO.eprintln s!"unknown sweep op {op}"; return 3
   let spec := sweepSpec op
+  let exact := sweepExact op
   let total : UInt64 := if thorough then 0x100000000 else 0x300000
   let mut b := b0
   let mut nontrivial : UInt64 := 0
@@ -497,7 +526,7 @@ def runSweep (op : String) (thorough : Bool) (b0 b1 : UInt64) : IO UInt32 := do
     let mut i := lo
     while i < hi do
       let x := sweepInput thorough i
-      let r := canon (f x)
+      let r := if exact then f x else canon (f x)
       h := (h ^^^ r.toUInt64) * 0x100000001b3
       if r != x && (r &&& 0x7FFFFFFF) != 0 then nontrivial := nontrivial + 1
       if !(spec x r) then
